@@ -403,18 +403,29 @@ func (e *Engine) initAxiom(st *State, class string, s Sort) {
 	if !ok || (k != LKRef && k != LKSlArr) {
 		return
 	}
+	if ax, ok := e.initAxioms[class]; ok {
+		if ax != nil {
+			e.assumeQuiet(st, ax)
+		}
+		return
+	}
 	tb := e.tb
 	h0 := tb.Const("H!"+class, s)
 	a0 := tb.Const("A0", SInt)
 	r := tb.BoundVar("r", SInt)
+	var ax *Term
 	switch s {
 	case SArrI:
 		v := tb.Select(h0, r)
-		e.assumeQuiet(st, tb.Forall([]*Term{r}, tb.Implies(tb.And(tb.Le(tb.Int(0), r), tb.Lt(r, a0)), tb.And(tb.Le(tb.Int(0), v), tb.Lt(v, a0))), []*Term{v}))
+		ax = tb.Forall([]*Term{r}, tb.Implies(tb.And(tb.Le(tb.Int(0), r), tb.Lt(r, a0)), tb.And(tb.Le(tb.Int(0), v), tb.Lt(v, a0))), []*Term{v})
 	case SArr2I:
 		i := tb.BoundVar("i", SInt)
 		v := tb.Select(tb.Select(h0, r), i)
-		e.assumeQuiet(st, tb.Forall([]*Term{r, i}, tb.Implies(tb.And(tb.Le(tb.Int(0), r), tb.Lt(r, a0)), tb.And(tb.Le(tb.Int(0), v), tb.Lt(v, a0))), []*Term{v}))
+		ax = tb.Forall([]*Term{r, i}, tb.Implies(tb.And(tb.Le(tb.Int(0), r), tb.Lt(r, a0)), tb.And(tb.Le(tb.Int(0), v), tb.Lt(v, a0))), []*Term{v})
+	}
+	e.initAxioms[class] = ax
+	if ax != nil {
+		e.assumeQuiet(st, ax)
 	}
 }
 func globClass(g *ssa.Global, path string, l Leaf) string {
@@ -530,7 +541,7 @@ func (e *Engine) storePx(st *State, px *PtrX, T types.Type, v Val) {
 		if len(ls) != len(v.T) {
 			panic(fmt.Sprintf("store: %d leaves for type %s, value has %d", len(ls), T, len(v.T)))
 		}
-		e.escape(st, T, v)
+		v = e.escape(st, T, v)
 		for i, l := range ls {
 			cl := e.objClass(px.Root, px.Path, l)
 			e.setH(st, cl, tb.Store(e.H(st, cl, ArrOf(l.Sort)), px.Ref, v.T[i]))
@@ -541,7 +552,7 @@ func (e *Engine) storePx(st *State, px *PtrX, T types.Type, v Val) {
 		if len(ls) != len(v.T) {
 			panic(fmt.Sprintf("store: %d leaves for type %s, value has %d", len(ls), T, len(v.T)))
 		}
-		e.escape(st, T, v)
+		v = e.escape(st, T, v)
 		for i, l := range ls {
 			cl := e.elemClass(px.Root, px.Path, l)
 			h := e.H(st, cl, ArrOf(ArrOf(l.Sort)))
@@ -550,28 +561,47 @@ func (e *Engine) storePx(st *State, px *PtrX, T types.Type, v Val) {
 	case PGlobal:
 		v = e.flatten(st, T, v)
 		ls := Leaves(T)
-		e.escape(st, T, v)
+		v = e.escape(st, T, v)
 		for i, l := range ls {
 			e.setH(st, globClass(px.Glob, px.Path, l), v.T[i])
 		}
 	}
 }
 
-// escape checks that a value stored into the heap has no Go-side-only parts
-// that cannot be represented (interior pointers, closures), materialising local
-// slices.
-func (e *Engine) escape(st *State, T types.Type, v Val) {
+// escape prepares a value for being stored into the heap: slices over local
+// arrays are materialised; Go-side-only parts that cannot be represented
+// (interior pointers) are rejected.
+func (e *Engine) escape(st *State, T types.Type, v Val) Val {
+	if v.Ann == nil {
+		return v
+	}
+	out := Val{T: append([]*Term(nil), v.T...), Ann: map[string]Ann{}}
+	ls := Leaves(T)
 	for path, a := range v.Ann {
 		switch x := a.(type) {
 		case *PtrX:
-			_ = x
+			if x.Kind == PField && x.Path == "" {
+				continue
+			}
 			panic(e.unsupported("interior/local pointer stored into the heap (" + path + " of " + T.String() + ")"))
 		case *SliceX:
-			panic(e.unsupported("slice of local array stored into the heap without materialisation"))
-		case *FuncX:
-			// function values stored in the heap become opaque; calls through them need a contract
+			idx := -1
+			for i, l := range ls {
+				if l.Path == path+".arr" {
+					idx = i
+				}
+			}
+			if idx < 0 {
+				panic("escape: slice leaf not found")
+			}
+			m := e.materialise(st, Val{T: v.T[idx : idx+4], Ann: map[string]Ann{"": x}}, ls[idx].Typ)
+			copy(out.T[idx:idx+4], m.T)
+		default:
+			// IfaceX / FuncX: concrete information is dropped when the value goes through the heap
 		}
 	}
+	out.Ann = nil
+	return out
 }
 
 // unsupported builds the panic value for out-of-subset constructs.
